@@ -148,6 +148,32 @@ def encode_fields(g, body, prefix):
     return out, frame
 
 
+def encode_size_order(rep, rule, split=False):
+    """the generated encode() and size() walk the fields in the same order (the compact length pass keeps the writer's
+    field-id delta context: measured in another order, the header widths differ from the ones written)"""
+    prog, g, files = load(split)
+    infos, unmatched = match_types(g, files)
+    n = 0
+    for ti in infos:
+        if ti.role not in ('struct', 'exception', 'args', 'result') and ti.role in ('enum', 'typedef', 'union'):
+            continue
+        ms = ti.methods
+        if 'encode' not in ms or 'size' not in ms:
+            continue
+        enc, _ = encode_fields(g, ms['encode'], 'write')
+        siz, _ = encode_fields(g, ms['size'], 'len')
+        if len(enc) < 2:
+            continue
+        n += 1
+        key = '%s|%s|field order' % (rule, ti.label)
+        if list(enc) == list(siz):
+            rep.ok(rule, key, 'encode and size walk ids %s in the same order' % list(enc), ms['encode'].loc())
+        else:
+            rep.bad(rule, key, ms['encode'].loc(), '%s: encode writes the fields in id order %s but size measures them in order %s: under the compact protocol the field-header widths depend on the previous id, so size() differs from the bytes written' % (ti.label, list(enc), list(siz)))
+    if n < 40:
+        rep.anchor_missing(rule, 'generated structs with at least two fields (found %d)' % n)
+
+
 def field_ttype_from_encode(op, detail):
     base = op
     if base in gt.CONTAINER:
@@ -855,7 +881,7 @@ def literal_leaves(F, ty, lit, optional_ctx=False):
     return [('?', lit)]
 
 
-def defaults(rep, split=False):
+def defaults(rep, split=False, pre='G20'):
     prog, g, files = load(split)
     infos, _ = match_types(g, files)
     from collections import Counter
@@ -864,20 +890,20 @@ def defaults(rep, split=False):
             continue
         has_default = any(f.default is not None for f in ti.fields)
         db = g.defaults.get(ti.path)
-        key = 'G20.c|%s' % ti.label
+        key = pre + '.c|%s' % ti.label
         if not has_default:
             # derived Default: the impl body comes from #[derive(Default)] (marked automatically derived) or is absent
             if db is None or (db.from_macro or '').startswith('derive') or 'Default' in (db.from_macro or ''):
-                rep.ok('G20.c', key, 'no IDL defaults: Default is derived (every field empty/absent)', db.loc() if db else '')
+                rep.ok(pre + '.c', key, 'no IDL defaults: Default is derived (every field empty/absent)', db.loc() if db else '')
             else:
                 leaves = body_leaves(db, g)
                 if all(l == ('default',) for l in leaves):
-                    rep.ok('G20.c', key, 'no IDL defaults: every field uses Default::default()', db.loc())
+                    rep.ok(pre + '.c', key, 'no IDL defaults: every field uses Default::default()', db.loc())
                 else:
-                    rep.bad('G20.c', key, db.loc(), '%s declares no defaults but its Default impl contains literals %s' % (ti.label, leaves[:6]))
+                    rep.bad(pre + '.c', key, db.loc(), '%s declares no defaults but its Default impl contains literals %s' % (ti.label, leaves[:6]))
             continue
         if db is None:
-            rep.bad('G20.b', 'G20.b|%s' % ti.label, '', '%s declares defaults but no Default impl was generated' % ti.label)
+            rep.bad(pre + '.b', pre + '.b|%s' % ti.label, '', '%s declares defaults but no Default impl was generated' % ti.label)
             continue
         rep.functions.add(db.id)
         got = body_leaves(db, g)
@@ -890,7 +916,7 @@ def defaults(rep, split=False):
                 lv = literal_leaves(ti.F, f.ty, f.default)
             per_field.append((f, lv))
             want.extend(lv)
-        key = 'G20.b|%s' % ti.label
+        key = pre + '.b|%s' % ti.label
         rep.disagreements_checked += len(ti.fields)
         same_seq = got == want
         if not same_seq:
@@ -903,7 +929,7 @@ def defaults(rep, split=False):
             # map literals: Rust evaluates the value expression before the key constant is passed to insert(); compare as multisets
             same_seq = True
         if same_seq:
-            rep.ok('G20.b', key, 'Default::default() holds the %d IDL defaults in declaration order (%d literal leaves compared)' % (sum(1 for f in ti.fields if f.default is not None), len(want)), db.loc())
+            rep.ok(pre + '.b', key, 'Default::default() holds the %d IDL defaults in declaration order (%d literal leaves compared)' % (sum(1 for f in ti.fields if f.default is not None), len(want)), db.loc())
         else:
             # first difference, mapped back to a field
             cg_, cw_ = Counter(got), Counter(want)
@@ -922,7 +948,7 @@ def defaults(rep, split=False):
                     culprit = f
                     break
                 pos += len(lv)
-            rep.bad('G20.b', key, db.loc(), '%s: Default::default() differs from the IDL defaults at field %s (IDL default `%s`): expected leaf %s; leaves only in the IDL %s, only in the generated code %s' % (
+            rep.bad(pre + '.b', key, db.loc(), '%s: Default::default() differs from the IDL defaults at field %s (IDL default `%s`): expected leaf %s; leaves only in the IDL %s, only in the generated code %s' % (
                 ti.label, culprit.name if culprit else '?', culprit.default if culprit else '?', want[i] if i < len(want) else 'end', only_want[:4], only_got[:4]))
         # G20.s presence: exactly the optional fields that HAVE an IDL default are `Some(..)`; every other optional field is absent
         want_some = sum(expected_somes(ti.F, f.ty, f.default, f.req) for f in ti.fields)
@@ -935,22 +961,22 @@ def defaults(rep, split=False):
                     r = st.get('r', {})
                     if r.get('k') == 'agg' and r['kind'].endswith('option::Option::Some'):
                         got_some += 1
-        key = 'G20.s|%s' % ti.label
+        key = pre + '.s|%s' % ti.label
         if got_some == want_some:
-            rep.ok('G20.s', key, '%d Some(..) in Default::default() = optional fields (and members of struct literals) that have an IDL default' % got_some, db.loc())
+            rep.ok(pre + '.s', key, '%d Some(..) in Default::default() = optional fields (and members of struct literals) that have an IDL default' % got_some, db.loc())
         else:
-            rep.bad('G20.s', key, db.loc(), '%s: Default::default() builds %d `Some(..)` values but the IDL gives a default to %d optional fields / struct-literal members: an optional field without a default must be absent (None), one with a default present' % (ti.label, got_some, want_some))
+            rep.bad(pre + '.s', key, db.loc(), '%s: Default::default() builds %d `Some(..)` values but the IDL gives a default to %d optional fields / struct-literal members: an optional field without a default must be absent (None), one with a default present' % (ti.label, got_some, want_some))
         # G20.a the decoders fill absent fields with the same values
         dl = Counter(l for l in got if l != ('default',))
         for which in ('decode', 'decode_async'):
             b = ti.methods[which]
             dec = Counter(body_leaves(b, g))
             missing = {l: n for l, n in dl.items() if dec.get(l, 0) < n}
-            key = 'G20.a|%s|%s' % (ti.label, which)
+            key = pre + '.a|%s|%s' % (ti.label, which)
             if not missing:
-                rep.ok('G20.a', key, 'every default literal of Default::default() is also used by %s for an absent field' % which, b.loc())
+                rep.ok(pre + '.a', key, 'every default literal of Default::default() is also used by %s for an absent field' % which, b.loc())
             else:
-                rep.bad('G20.a', key, b.loc(), '%s::%s does not fill absent fields with the values Default::default() uses: %s' % (ti.label, which, list(missing)[:5]))
+                rep.bad(pre + '.a', key, b.loc(), '%s::%s does not fill absent fields with the values Default::default() uses: %s' % (ti.label, which, list(missing)[:5]))
 
 
 # ------------------------------------------------------------------------------------------------ C09 (generated): loop progress
